@@ -550,6 +550,10 @@ def main():
                     elif strip(a).replace(" 1", " 0") != strip(b).replace(" 1", " 0"):
                         v["kind"] = "oracle"
                         v["detail"] = "slice and reader entry points give different values for one message | " + v["detail"]
+        elif "THREADS-DIFFER" in rt:
+            v["kind"] = "oracle"
+            v["detail"] = ("three threads using one schema concurrently observed something else (a result, the schema's "
+                           "rendering or an error text) than sequential use | " + v["detail"])
         elif v["case"].startswith("derive "):
             # C20 on the implementation's own outcome for this family of types
             bad = [t for t in rt if t in ("NONDET", "json-REJECTED", "json-err", "schema-err", "err", "rt-NE", "rt-err")]
